@@ -16,7 +16,7 @@
 From Coq Require Import List NArith ZArith.
 Import ListNotations.
 Require Import V.base.Bytes V.gen.RouterConsts V.model.Router V.proofs.Router_proofs.
-Require Import V.model.Echo V.proofs.Echo_proofs.
+Require Import V.model.Echo V.proofs.Echo_proofs V.model.Runner V.proofs.Runner_proofs.
 
 (* reach = all finite event sequences *)
 Theorem C11_reach_is_every_run : forall q,
@@ -145,6 +145,26 @@ Theorem C11_echo_holds_received : forall quorum P S stP r1P stP' outP r2P resP,
 Proof. exact echo_holds_received. Qed.
 Print Assumptions C11_echo_holds_received.
 
+(* runners: a runner is the fold of the round functions whose inbox in every round is what a
+   completed receive of its router returned for the round's correlation id (requested from the
+   other parties; the filed deposits under that id carry what the senders' round functions produced
+   for this party: authentic transport, one exchange per id, identical retransmissions).  Then, for
+   EVERY schedule in which the receives complete, states and inboxes of every party equal those of
+   the round-by-round drive of the same round functions from the same initial states (tapes). *)
+Theorem C11_runner_refines_rounds :
+  forall (St : Type) (parties : list N)
+         (rf : nat -> N -> St -> list (N * bytes) -> St * list (N * bytes)) (init : N -> St)
+         (cid_of : nat -> cid) (rin : nat -> N -> list (N * bytes)),
+  NoDup parties ->
+  (forall k p, In p parties ->
+     router_inbox parties (cid_of k) p
+       (fun f => sent rf k (fst (runner rf init rin k)) (snd (runner rf init rin k)) f p) (rin k p)) ->
+  forall n p, In p parties ->
+    fst (runner rf init rin n) p = fst (rounds parties rf init n) p /\
+    snd (runner rf init rin n) p = snd (rounds parties rf init n) p.
+Proof. exact (@runner_refines_rounds). Qed.
+Print Assumptions C11_runner_refines_rounds.
+
 (* ---- the hypotheses are satisfiable by non-trivial instances -------------------------------- *)
 
 (* a receive for senders 1 and 2 under "a/bc": parks, sender 1 arrives, wakes and parks again, an
@@ -190,3 +210,15 @@ Example C11_nonvacuous_echo :
   (let r1_1 := [(2, [5]); (3, [7])]%N in let r1_2 := [(1, [4]); (3, [8])]%N in let r1_3 := [(1, [4]); (2, [5])]%N in
    round3 1%N q (st 1%N r1_1) [(2%N, pick 1%N (r2 2%N r1_2)); (3%N, pick 1%N (r2 3%N r1_3))] = None).
 Proof. vm_compute. repeat split; reflexivity. Qed.
+
+(* a router history of party 1 that satisfies [router_inbox] for a round whose sender 2 sent [5] *)
+Example C11_nonvacuous_runner :
+  router_inbox [1; 2]%N [7]%N 1%N (fun f => if N.eqb f 2 then Some [5]%N else None) [(2, [5])]%N.
+Proof.
+  exists [1; 2]%N.
+  exists (history (init [1; 2]%N) [RecvEnter [7]%N [2]%N; RecvCheck [7]%N; Deposit 2%N [7]%N [5]%N; WakeToken [7]%N]).
+  exists (fst (run (init [1; 2]%N) [RecvEnter [7]%N [2]%N; RecvCheck [7]%N; Deposit 2%N [7]%N [5]%N; WakeToken [7]%N])).
+  eexists. split; [apply reach_run|]. split; [vm_compute; reflexivity|]. split; [vm_compute; reflexivity|].
+  intros f pl d Hin _. vm_compute in Hin.
+  repeat (destruct Hin as [Hin|Hin]; [inversion Hin; subst; try reflexivity|]); destruct Hin.
+Qed.
